@@ -29,9 +29,93 @@ thread_local! {
     static CLOCK: RefCell<Option<ClockState>> = const { RefCell::new(None) };
     /// simulated time covered by clocks already uninstalled on this thread
     static COVERED_DONE: std::cell::Cell<u64> = const { std::cell::Cell::new(0) };
+    static PEEKS: std::cell::Cell<u64> = const { std::cell::Cell::new(0) };
 }
 
 pub const NS_PER_MS: u64 = 1_000_000;
+
+// ------------------------------------------------------------------------------------------------------------
+// Seam S1d: clock reads that do NOT go through a hook. The guarded hooks (H3-H7) cover the clock reads the
+// properties depend on in the pinned tree; a change to the library can add a read of its own
+// (`Instant::now()` in a constructor, say), and before this seam existed such a read saw the real clock — the
+// run then depended on how long the process had been alive, and a violation found by a worker process did not
+// replay in a fresh one (seeded change C07-o). std reaches the kernel clocks through libc's `clock_gettime`; a
+// definition in the binary wins the link, exactly like `getrandom` (core/hashseed.rs). On a thread with a
+// simulated clock installed every such read is a PEEK at that clock: it returns the current simulated reading
+// and changes nothing (no tick-on-read, no step budget, no entry in the read log), so the hooked reads behave as
+// before. On every other thread (driver, watchdog, worker main thread) the real clock answers.
+
+/// simulated monotonic instants are `MONO_EPOCH_NS + mono_ns`
+const MONO_EPOCH_NS: u64 = 1_000_000 * 1_000_000_000;
+
+#[no_mangle]
+pub unsafe extern "C" fn clock_gettime(clk: libc::clockid_t, ts: *mut libc::timespec) -> libc::c_int {
+    let peek: Option<u64> = CLOCK
+        .try_with(|c| match c.try_borrow() {
+            Ok(g) => g.as_ref().and_then(|s| match clk {
+                libc::CLOCK_REALTIME | libc::CLOCK_REALTIME_COARSE => Some(s.wall_ns),
+                libc::CLOCK_MONOTONIC | libc::CLOCK_MONOTONIC_RAW | libc::CLOCK_MONOTONIC_COARSE | libc::CLOCK_BOOTTIME => Some(MONO_EPOCH_NS + s.mono_ns),
+                _ => None,
+            }),
+            Err(_) => None,
+        })
+        .ok()
+        .flatten();
+    match peek {
+        Some(ns) if !ts.is_null() => {
+            (*ts).tv_sec = (ns / 1_000_000_000) as libc::time_t;
+            (*ts).tv_nsec = (ns % 1_000_000_000) as libc::c_long;
+            PEEKS.try_with(|p| p.set(p.get() + 1)).ok();
+            0
+        }
+        _ => libc::syscall(libc::SYS_clock_gettime, clk, ts) as libc::c_int,
+    }
+}
+
+/// Fix the base of the hooked monotonic clock (`verif_hooks::instant_now()` = BASE + simulated ns, BASE being
+/// taken once per process) at the simulated epoch, so that hooked and un-hooked monotonic reads show the same
+/// clock. Call once at process start.
+pub fn init_base() {
+    install(0);
+    with(|s| s.mono_ns = 0);
+    let b = verif_hooks::instant_now();
+    let again = std::time::Instant::now();
+    uninstall();
+    debug_assert!(again >= b);
+}
+
+/// The interposition must be effective (a thread with a simulated clock sees it through plain std calls) and
+/// must not leak (a thread without one sees the real clock).
+pub fn self_check() -> Result<(), String> {
+    let real_before = std::time::SystemTime::now().duration_since(std::time::UNIX_EPOCH).map(|d| d.as_millis() as u64).unwrap_or(0);
+    install(1_234_567);
+    advance_mono_ns(777);
+    let wall = std::time::SystemTime::now().duration_since(std::time::UNIX_EPOCH).map(|d| d.as_millis() as u64).unwrap_or(0);
+    let i1 = std::time::Instant::now();
+    let hooked = verif_hooks::instant_now();
+    advance_mono_ns(5);
+    let i2 = std::time::Instant::now();
+    uninstall();
+    let real_after = std::time::SystemTime::now().duration_since(std::time::UNIX_EPOCH).map(|d| d.as_millis() as u64).unwrap_or(0);
+    if wall != 1_234_567 {
+        return Err(format!("clock seam: SystemTime::now() on a simulated thread shows {wall} ms, not the simulated 1234567 (clock_gettime not interposed?)"));
+    }
+    if i2.duration_since(i1).as_nanos() != 5 {
+        return Err(format!("clock seam: Instant::now() moved by {} ns while the simulated monotonic clock moved by 5", i2.duration_since(i1).as_nanos()));
+    }
+    if hooked != i1 {
+        return Err("clock seam: the hooked monotonic read and a plain Instant::now() disagree".into());
+    }
+    if real_before < 1_600_000_000_000 || real_after < real_before {
+        return Err("clock seam: a thread without a simulated clock does not see the real clock".into());
+    }
+    Ok(())
+}
+
+/// number of un-hooked clock reads answered from the simulated clock on this thread
+pub fn peeks() -> u64 {
+    PEEKS.with(|p| p.get())
+}
 
 fn with<R>(f: impl FnOnce(&mut ClockState) -> R) -> R {
     CLOCK.with(|c| f(c.borrow_mut().as_mut().expect("sim clock not installed")))
